@@ -19,6 +19,12 @@
 (*     StepContractClosed (second pass, acts on dangling + incoming dust,   *)
 (*     inserts resolvers), StepWaiting, StepFullyResolved.                  *)
 (*                                                                          *)
+(* HTLCs are identified by their slot.  The HtlcIndex the code keys its maps *)
+(* by is bound by the executor: offered and received HTLCs are numbered by   *)
+(* independent counters, so an offered and a received HTLC may carry the    *)
+(* same index (schedule field "idx"); the model is index-free, a trace in   *)
+(* which the code confuses the two index spaces is simply not a behaviour.  *)
+(*                                                                          *)
 (* The classification operators (CommitActs, DanglingActs, DiffActs,        *)
 (* LocalActs, RemoteActs, Construct) MIRROR checkCommitChainActions /       *)
 (* checkRemoteDanglingActions / checkRemoteDiffActions / checkLocal- /      *)
@@ -43,7 +49,7 @@ CONSTANTS NH,           \* HTLC slots
           DeltaPairs,   \* set of <<OutgoingBroadcastDelta, IncomingBroadcastDelta>>
           MaxBlocks,    \* BlockEpochs per behaviour
           DataLoss,     \* subset of BOOLEAN: may ForceCloseChan fail with ErrForceCloseLocalDataLoss
-          F3cRepaired,  \* TRUE: the merge keeps the non-dust view (candidate repair F3c)
+          F3cRepaired,  \* TRUE: the merge keeps the non-dust view (fix 1eb7c38); FALSE: the code before it (F3c)
           F3abRepaired  \* TRUE: candidate policy for F3a/F3b/F3d (EarlyOK below) instead of the code's
 
 H0    == 100            \* height at Start
